@@ -139,6 +139,8 @@ def check(pid: str, tier: str, seed: int, replay_path: str = None) -> int:
         model_stats = []
         tasks = []
         traces = []
+        stage = {}
+        t_stage = time.time()
         if replay_path:
             with open(replay_path) as fh:
                 recorded = json.load(fh)["traces"]
@@ -152,12 +154,17 @@ def check(pid: str, tier: str, seed: int, replay_path: str = None) -> int:
             # (3) drivers
             for name, sizes, kw in catalog.drivers_for(pid, tier):
                 tasks.extend(pool.driver_tasks(name, seed, sizes, kw.pop("_prop", pid), kw))
+            stage["models_s"] = round(time.time() - t_stage, 1)
+            t_stage = time.time()
             traces = pool.run_tasks(tasks)
+            stage["execution_s"] = round(time.time() - t_stage, 1)
+        t_stage = time.time()
         # (4) validation
         verdict = tlc.validate_traces(traces, wd, "main")
         if verdict["events"] + verdict.get("skipped", 0) != verdict["expected_events"]:
             raise tlc.MachineryError("TLC judged %d events, %d were recorded" % (
                 verdict["events"], verdict["expected_events"]))
+        stage["validation_s"] = round(time.time() - t_stage, 1)
         by_id = {t["id"]: t for t in traces}
         mine, others, known = [], [], []
         for f in verdict["failures"]:
@@ -219,7 +226,7 @@ def check(pid: str, tier: str, seed: int, replay_path: str = None) -> int:
                         "distinct_nontrivial = distinct (action, parameters, operand digests) whose operands include "
                         "a non-constant polynomial with a non-zero coefficient (option / utility actions: every distinct call)",
                 "samples": sample_events(traces, pid) or sample_events(traces, traces[0]["prop"] if traces else pid),
-                "bounded_models": model_stats, "per_action_events": cen["per_action"],
+                "stage_seconds": stage, "bounded_models": model_stats, "per_action_events": cen["per_action"],
                 "rejections_owned": len(violations), "known_finding_rejections": len(known),
                 "known_findings": wstatus,
                 "other_property_rejections": [
